@@ -329,9 +329,11 @@ func (r *runner) onNewRound(h, round int64) {
 			}
 		}
 	case "restart":
-		// recovery is complete when one height beyond the store height found
-		// after NewNode has been committed
-		if r.armedAt == 0 && committed >= r.hStart+1 {
+		// the recovery window ends when two heights beyond the store height found
+		// after NewNode have been committed: the height the crash interrupted and
+		// the first height that is decided entirely after the restart (a second
+		// crash while THAT height commits meets whatever the recovery left behind)
+		if r.armedAt == 0 && committed >= r.hStart+2 {
 			n := verifhook.Count()
 			verifhook.Disarm()
 			r.armedAt = -1
